@@ -167,6 +167,17 @@ def check(case, ctx):
     if MK and len([1 for h, _ in log if h == "represent"]) != len(wrapped):
         raise Violation("represent-visits", f"{len(wrapped)} wrapped nodes, {len(log)} represent hook calls")
 
+    # printers of one's own, configured differently, used one after the other on the same schema objects
+    from d42.representation import Representor
+    for step in (2, 8, 4):
+        try:
+            o2 = T2.__accept__(Representor(indent=step))
+            o1 = T.__accept__(Representor(indent=step))
+        except Exception as e:  # noqa
+            raise Violation("represent-raises", f"Representor(indent={step}) raised {e!r}")
+        if o1 != o2:
+            raise Violation("repr-differs", f"Representor(indent={step}) after repr()\nbuilt-in: {o1!r}\nwrapped : {o2!r}")
+
     # validation
     verdicts = set()
     for rec in case["values"]:
